@@ -12,9 +12,9 @@ m = {
     "setup_cmd": "./setup.sh",
     "hooks": {
         "guard": "verif",
-        "enable": "no hook is compiled into /repo: the monitors live in the out-of-tree Go module /verif/harness (module path go.opentelemetry.io/collector/verifharness, `replace` directives onto /repo's working tree) and are built with -tags verif; injection/observation points are the interfaces the code under test already calls (storage client, export function, context, sizer, providers, test components)",
+        "enable": "the checks build /repo's packages with -tags verif. One hook file exists: service/verif_hooks.go (build tag verif) re-exports, unchanged, the constructors of service/internal/obsconsumer, which Go's internal rule keeps an out-of-tree module from importing (used by C19). Everything else needs no hook: the monitors live in the out-of-tree Go module /verif/harness (module path go.opentelemetry.io/collector/verifharness, `replace` directives onto /repo's working tree) and are built with -tags verif; injection/observation points are the interfaces the code under test already calls (storage client, export function, context, sizer, providers, test components)",
         "baseline_off_cmd": "./baseline_off.sh",
-        "source_commits": [],
+        "source_commits": ["613b719e5"],
         "add_only": True,
     },
     "engines": [
